@@ -76,7 +76,7 @@ PROPS.update({
                                      "arity-1", "arity-4", "arity-5", "key-absent:sources", "key-absent:names", "key-absent:mappings",
                                      "key-absent:file", "both-debug-ids", "only-debugId", "null-source", "integer-name", "junk-header",
                                      "kind:Regular", "kind:Hermes", "kind:Index", "root(plain)xsource(relative)", "root(plain)xsource(absolute)",
-                                     "root(slash)xsource(relative)", "root(empty)xsource(relative)", "from_slice-rejects-other-kind"]},
+                                     "root(slash)xsource(relative)", "root(empty)xsource(relative)", "from_slice-rejects-other-kind", "line-longer-than-4096-bytes"]},
         "assumptions": COMMON_ASSUME,
     },
     "C03": {
@@ -189,7 +189,7 @@ PROPS.update({
         "required_buckets": {"all": ["segment-with-1-field(s)", "segment-with-2-field(s)", "segment-with-3-field(s)", "entry-exactly-at-token-position",
                                      "token-before-first-entry->None", "broken-function-map-next-to-a-good-one", "round-trip-checked",
                                      "null-entry", "empty-metadata-array", "extra-metadata-after-the-first", "name-index-out-of-range->None",
-                                     "token-resolving-to-a-name", "function-map-with-several-lines"]},
+                                     "token-resolving-to-a-name", "function-map-with-several-lines", "function-map-entry-beyond-line-4096"]},
         "assumptions": COMMON_ASSUME + ["Metro's format as described in harness/src/reference/metro.rs (column resets per ';', name index and line run over the whole string, lines start at 1)"],
     },
     "C15": {
